@@ -102,6 +102,10 @@ func c11Run(r *core.Run) {
 	}
 	o.Rand = t.SubRand("c11.rand")
 	s.Cfg.EncStyle, s.Cfg.EncKeyIdx, s.Cfg.EncCert = ks, spKey, spCert
+	if rs := t.Int(8, "c11.rejectedsetter"); rs >= 1 && rs <= 3 {
+		s.Cfg.RejectedSetters = rs // an attempted rotation to a key that failed to load: refused, changes nothing
+		r.Fault("key_rotation_refused_by_the_sp")
+	}
 	if !s.Build() {
 		return
 	}
